@@ -6,10 +6,11 @@
 (* HashringMC (C18: safety of the result) and HashringBuildMC (C19:        *)
 (* termination).                                                           *)
 (*                                                                         *)
-(* Init enumerates: endpoint count n <= MaxN, every zone layout of the n   *)
+(* Enumerated: endpoint count n <= MaxN, every zone layout of the n        *)
 (* endpoints up to renaming (zone sizes non-increasing, <= MaxZones),      *)
 (* sections per endpoint s in SecChoices with n*s <= MaxSecs, EVERY ring   *)
-(* order (hash functions are uninterpreted), every rf <= n.  The walk      *)
+(* order up to renaming endpoints within a zone (hash functions are        *)
+(* uninterpreted; phase "place"), every rf <= n.  The walk                 *)
 (* starts at ring position 1: rotating a ring order gives another ring     *)
 (* order, so all start sections are covered.                               *)
 (*                                                                         *)
@@ -20,25 +21,33 @@
 (***************************************************************************)
 EXTENDS Hashring, TLC
 CONSTANTS MaxN, MaxZones, SecChoices, MaxSecs, Rule
-VARIABLES az, ring, rf, pos, reps, idle
-lvars == <<az, ring, rf, pos, reps, idle>>
+VARIABLES phase, secs, az, ring, rf, pos, reps, idle
+lvars == <<phase, secs, az, ring, rf, pos, reps, idle>>
 
-Layouts(n) == { a \in [1..n -> 1..MaxZones] :
-                  /\ a[1] = 1
-                  /\ \A k \in 1..(n - 1) : a[k + 1] >= a[k] /\ a[k + 1] <= a[k] + 1
-                  /\ \A z \in 1..(MaxZones - 1) : ZoneCap(a, z) >= ZoneCap(a, z + 1) }
-Rings(n, s) == { r \in [1..(n * s) -> 1..n] :
-                  \A k \in 1..n : Cardinality({ p \in 1..(n * s) : r[p] = k }) = s }
-
+(* Phase "place": the ring is laid out section by section -- every order of the sections of  *)
+(* the endpoints (secs sections each).  Endpoints of the same zone are interchangeable, so   *)
+(* they are made to first appear in increasing order (renaming endpoints within a zone maps  *)
+(* every other ring onto one of these and preserves every property checked).                  *)
 LoopInit ==
-    \E n \in 1..MaxN, s \in SecChoices :
-        /\ n * s <= MaxSecs
-        /\ az \in Layouts(n)
-        /\ ring \in Rings(n, s)
-        /\ rf \in 1..n
-        /\ pos = 1 /\ reps = <<>> /\ idle = 0
+    /\ phase = "place" /\ ring = <<>> /\ rf = 0 /\ pos = 0 /\ reps = <<>> /\ idle = 0
+    /\ \E n \in 1..MaxN : /\ az \in HLayouts(n, MaxZones)
+                         /\ secs \in { s \in SecChoices : n * s <= MaxSecs }
 
-Running == Len(reps) < rf
+Owned(k) == Cardinality({ p \in DOMAIN ring : ring[p] = k })
+Place == /\ phase = "place" /\ Len(ring) < Len(az) * secs
+         /\ \E k \in DOMAIN az :
+              /\ Owned(k) < secs
+              /\ \A k0 \in DOMAIN az : (k0 < k /\ az[k0] = az[k]) => Owned(k0) > 0
+              /\ ring' = Append(ring, k)
+         /\ UNCHANGED <<phase, secs, az, rf, pos, reps, idle>>
+(* the ring is complete: pick the replication factor and start the walk at position 1 *)
+Begin == /\ phase = "place" /\ Len(ring) = Len(az) * secs
+         /\ rf' \in 1..Len(az)
+         /\ phase' = "walk" /\ pos' = 1
+         /\ UNCHANGED <<secs, az, ring, reps, idle>>
+
+Walking == phase = "walk"
+Running == Walking /\ Len(reps) < rf
 Chosen == HSeqRange(reps)
 Blocks(z) == IF Rule = "fixed" THEN ZoneBlocks(ZoneSpread(Chosen, az), ZoneCaps(az), z)
                                ELSE ZoneBlocksPrefix(ZoneSpread(Chosen, az), z)
@@ -47,17 +56,17 @@ Bump == idle' = IF idle < Len(ring) THEN idle + 1 ELSE idle     \* saturating: k
 
 (* `if _, ok := replicas[rep.endpointIndex]; ok { continue }` *)
 SkipUsed == /\ Running /\ ring[pos] \in Chosen
-            /\ Advance /\ Bump /\ UNCHANGED <<az, ring, rf, reps>>
+            /\ Advance /\ Bump /\ UNCHANGED <<phase, secs, az, ring, rf, reps>>
 (* `if len(azSpread) > 1 && azSpread[rep.az] > 0 && azSpread[rep.az] > least { continue }` *)
 SkipZone == /\ Running /\ ring[pos] \notin Chosen /\ Blocks(az[ring[pos]])
-            /\ Advance /\ Bump /\ UNCHANGED <<az, ring, rf, reps>>
+            /\ Advance /\ Bump /\ UNCHANGED <<phase, secs, az, ring, rf, reps>>
 (* accept the endpoint as the next replica *)
 Pick == /\ Running /\ ring[pos] \notin Chosen /\ ~Blocks(az[ring[pos]])
         /\ reps' = Append(reps, ring[pos])
-        /\ Advance /\ idle' = 0 /\ UNCHANGED <<az, ring, rf>>
+        /\ Advance /\ idle' = 0 /\ UNCHANGED <<phase, secs, az, ring, rf>>
 
-LoopNext == SkipUsed \/ SkipZone \/ Pick
+LoopNext == Place \/ Begin \/ SkipUsed \/ SkipZone \/ Pick
 LoopSpec == LoopInit /\ [][LoopNext]_lvars /\ WF_lvars(LoopNext)
 
-LoopDone == Len(reps) = rf
+LoopDone == Walking /\ Len(reps) = rf
 =============================================================================
